@@ -31,7 +31,7 @@ RULE = ("L2: JobServerSemaphore over a real pipe holding n in 1..4 tokens (recur
         "durations (0-80 ms), optionally one failing step and -k. Event log oracle: (1) a step starts only after the "
         "successful end of every dependency step (arguments, tools, previous step of the package) that the "
         "sequential build executed; (2) no workspace is started twice; (3) never more than N steps are open; (4) with "
-        "a failing step the exit status is non-zero, no transitive dependent starts, without -k at most N-1 steps start "
+        "a failing step the exit status is non-zero, no transitive dependent starts, in early-failure plans without -k (every other step sleeps 150 ms) at most 2(N-1) steps start "
         "after the failure and none after one of those has finished, and with -k (failing build or package step) every other step of the sequential build completes; without failure exactly the steps of the sequential build run; (5) every "
         "package result equals the sequential build; (6) in builds that are not aborted (success, or failure under "
         "-k) all N (N-1) tokens are back in the FIFO at shutdown. Non-trivial: >=2 steps were open at the same time "
@@ -355,15 +355,21 @@ def run_build_case(ctx, case, confirm=False):
                 with open(os.path.join(sw, "dur", k), "w") as f:
                     f.write("0.%03d\n" % ms)
         fail_key = None
+        early = False
         if case["fail"] is not None and ref_starts:
             fail_key = ref_starts[case["fail"] % len(ref_starts)]
             # every other plan lets a step fail that several others wait for (reached on more than one path)
             wanted = [k for k in ref_starts if sum(1 for p in deps if k in deps[p]) >= 2]
             if wanted and case["fail"] % 2:
                 fail_key = wanted[(case["fail"] // 2) % len(wanted)]
-            elif not case["keep"] and case["fail"] % 4 == 2:
-                # an early failure, while most of the other steps are still queued for a job slot
+            elif not case["keep"] and case["fail"] % 4 in (0, 2):
+                # an early failure, while most of the other steps are still queued for a job slot; all others take 150 ms
                 fail_key = ref_starts[(case["fail"] // 4) % min(3, len(ref_starts))]
+                early = True
+                for k in ref_starts:
+                    with open(os.path.join(sw, "dur", k), "w") as f:
+                        f.write("0.150\n")
+                os.unlink(os.path.join(sw, "dur", fail_key))
             if case["fail"] % 2 and os.path.exists(os.path.join(sw, "dur", fail_key)):
                 os.unlink(os.path.join(sw, "dur", fail_key))      # fails at once: later requests find it already failed
             open(os.path.join(sw, "fail", fail_key), "w").close()
@@ -456,16 +462,18 @@ def run_build_case(ctx, case, confirm=False):
                              "stderr: %s" % (what, missing, rw.err[-300:]), case)
             else:
                 aborted = True
-                # without -k the failure stops the build: steps that are running finish, nothing new is started. Between
-                # the failing script's end event and Bob noticing the dead process each other job may start one more step.
+                # without -k the failure stops the build: steps that are running finish, nothing new is started - once Bob
+                # has seen the failed script exit.  Until then (the window) jobs that hold or get a slot still start steps;
+                # how long the window is depends on the load.  The rule is therefore only applied to "early failure" plans in
+                # which every other step sleeps 150 ms: a step that starts inside the window cannot end inside it, so at most
+                # N-1 slot holders plus the N-1 steps that were running can hand a slot to a late starter, and nothing may
+                # start after a late starter has finished.
                 pos = next((i for i, e in enumerate(ev) if e[0] == "end" and e[1] == fail_key and e[2] != "0"), None)
-                if pos is not None:
+                if pos is not None and early:
                     late = [e[1] for e in ev[pos + 1:] if e[0] == "start"]
-                    if len(late) > N - 1:
+                    if len(late) > 2 * (N - 1):
                         ctx.fail("failure-did-not-stop-build", "%s: %d steps were started after the failure: %r" % (what, len(late), late), case)
                     ctx.label("L1:starts-after-failure:%d" % min(len(late), 3))
-                    # ... and none of those can be followed by yet another start: a slot that a late step frees is only
-                    # handed out after Bob has seen the (much earlier) exit of the failed script
                     late_set, ended_late = set(), False
                     for e in ev[pos + 1:]:
                         if e[0] == "start":
